@@ -802,4 +802,100 @@ Proof.
   - now apply surfaces_are_slices.
 Qed.
 
+(* ------------------------------------------------------------------ the decidable invariant holds on reachable states *)
+Lemma sorted_b_of_sf : forall l lo, SortedFrom lo l -> sorted_b l = true.
+Proof.
+  induction l as [|x l IH]; intros lo H; [reflexivity|]. destruct H as [_ H].
+  destruct l as [|y l]; [reflexivity|]. change (sorted_b (x :: y :: l)) with ((x <=? y) && sorted_b (y :: l)). rewrite (IH x H). destruct H as [H _].
+  apply Nat.leb_le in H. now rewrite H.
+Qed.
+
+Lemma inv_b_complete : forall o s, Inv o s -> inv_b o (cur s) (m2o s) = true.
+Proof.
+  intros o s HI. pose proof (inv_pos _ _ HI) as (Ho & Hlen & H0 & Hend & Hmono & Hbnd).
+  destruct HI as (_ & HB & HS & Hhd & Hlast & Hwf & Hwo).
+  unfold inv_b. rewrite Hlen, Nat.eqb_refl, H0, (sorted_b_of_sf _ _ HS), Hwf, Hlast, Nat.eqb_refl. cbn [andb Nat.eqb].
+  assert (forallb (fun p => implb (is_boundary (cur s) p) (is_boundary o (nth p (m2o s) 0))) (seq 0 (length (cur s) + 1)) = true) as ->.
+  { apply forallb_forall. intros p _. destruct (is_boundary (cur s) p) eqn:E; [|reflexivity]. cbn [implb]. now apply Hbnd. }
+  destruct (cur s); rewrite ?Nat.eqb_refl; reflexivity.
+Qed.
+
+Theorem reachable_satisfies_inv_b : forall o s, wf_text o = true -> Reach o s -> inv_b o (cur s) (m2o s) = true.
+Proof. intros. apply inv_b_complete. now apply reach_inv. Qed.
+
+(* ------------------------------------------------------------------ lengths stay within u16 (guards) *)
+Lemma cmp_gt : forall a b, cmp_eval ">" a b = Z.ltb b a.
+Proof. reflexivity. Qed.
+
+Lemma resolve_len : forall src smap edits start cl t m l,
+  length smap = length src + 1 -> start <= length src -> is_boundary src start = true ->
+  edits_ok_from src start edits = true ->
+  resolve cfg src smap edits start cl = ROk t m l ->
+  (Z.of_nat (length t) = l - cl + Z.of_nat (length src - start))%Z.
+Proof.
+  intros src smap edits. induction edits as [|e rest IH]; intros start cl t m l Hlen Hst Hbst Hok Hres.
+  - cbn [resolve] in Hres. unfold str_slice, vec_slice in Hres.
+    rewrite Hbst, is_boundary_len in Hres.
+    assert (E1 : (start <=? length src) = true) by (apply Nat.leb_le; lia).
+    assert (E2 : (start <=? length smap) = true) by (apply Nat.leb_le; lia).
+    rewrite E1, E2, !Nat.leb_refl in Hres. cbn [andb] in Hres.
+    inversion Hres; subst. rewrite firstn_length, skipn_length'. lia.
+  - cbn [edits_ok_from] in Hok. repeat rewrite andb_true_iff in Hok.
+    destruct Hok as [[[[[[Hs1 Hs2] Hs3] Hbs] Hbe] Hw] Hrest].
+    apply Nat.leb_le in Hs1, Hs2, Hs3.
+    cbn [resolve] in Hres. unfold str_slice, vec_slice in Hres. rewrite Hbst, Hbs in Hres.
+    assert (E1 : (start <=? e_s e) = true) by (apply Nat.leb_le; lia).
+    assert (E2 : (e_s e <=? length src) = true) by (apply Nat.leb_le; lia).
+    assert (E3 : (e_s e <=? length smap) = true) by (apply Nat.leb_le; lia).
+    rewrite E1, E2, E3 in Hres. cbn [andb] in Hres.
+    destruct (add_replace cfg smap (e_s e) (e_e e) (e_w e)) as [[[rb rm] delta]|] eqn:Ear; [|discriminate].
+    destruct (cmp_eval (c_resolve_cmp cfg) (cl + delta) (Z.of_N (c_resolve_limit cfg))); [discriminate|].
+    destruct (resolve cfg src smap rest (e_e e) (cl + delta)) as [t' m' l'| |] eqn:Erec; try discriminate.
+    inversion Hres; subst t m l; clear Hres.
+    pose proof (IH _ _ _ _ _ Hlen Hs3 Hbe Hrest Erec) as Hi.
+    destruct (add_replace_spec _ _ _ _ _ _ _ Ear) as (-> & _ & _).
+    assert (delta = Z.of_nat (length (e_w e)) - Z.of_nat (e_e e - e_s e))%Z as Hd.
+    { unfold add_replace in Ear. destruct (e_w e) as [|b0 w0].
+      - inversion Ear. cbn [length]. lia.
+      - destruct (nth_error smap _); [|discriminate]. destruct (nth_error smap _); [|discriminate]. now inversion Ear. }
+    rewrite !app_length, firstn_length, skipn_length'. lia.
+Qed.
+
+Lemma resolve_final_len_bounded : forall src smap edits start cl t m l,
+  c_resolve_cmp cfg = ">"%string -> edits <> [] ->
+  resolve cfg src smap edits start cl = ROk t m l -> (l <= Z.of_N (c_resolve_limit cfg))%Z.
+Proof.
+  intros src smap edits. induction edits as [|e rest IH]; intros start cl t m l Hc Hne Hres; [contradiction|].
+  cbn [resolve] in Hres.
+  destruct (str_slice src start (e_s e)); [|discriminate]. destruct (vec_slice smap start (e_s e)); [|discriminate].
+  destruct (add_replace cfg smap (e_s e) (e_e e) (e_w e)) as [[[rb rm] delta]|]; [|discriminate].
+  rewrite Hc, cmp_gt in Hres. destruct (Z.ltb_spec (Z.of_N (c_resolve_limit cfg)) (cl + delta)) as [|Hle]; [discriminate|].
+  destruct (resolve cfg src smap rest (e_e e) (cl + delta)) as [t' m' l'| |] eqn:Erec; try discriminate.
+  inversion Hres; subst. destruct rest as [|e2 rest'].
+  - cbn [resolve] in Erec. destruct (str_slice _ _ _); [|discriminate]. destruct (vec_slice _ _ _); [|discriminate].
+    inversion Erec; subst. exact Hle.
+  - eapply IH; eauto. discriminate.
+Qed.
+
+Theorem reach_len_u16 : forall o s, guards_ok cfg = true -> wf_text o = true -> Reach o s ->
+  (N.of_nat (length (cur s)) <= 65535)%N.
+Proof.
+  intros o s Hg Hwf HR. unfold guards_ok in Hg. repeat rewrite andb_true_iff in Hg.
+  destruct Hg as [[[G1 G2] G3] G4]. apply String.eqb_eq in G1, G3. apply N.leb_le in G2, G4.
+  induction HR as [s Hs | s es s' HR IH Hok Hc Hne].
+  - destruct cfg_fields as (Hf & He & _). unfold start_build in Hs. rewrite G1, cmp_gt in Hs.
+    destruct (Z.ltb_spec (Z.of_N (c_start_limit cfg)) (Z.of_nat (length o))) as [|Hle]; [discriminate|].
+    inversion Hs; subst. cbn [cur]. lia.
+  - pose proof (reach_inv _ _ Hwf HR) as HI. destruct HI as (_ & HB & _ & _ & _ & Hwfc & _).
+    pose proof (BMap_length _ _ _ HB) as Hlen.
+    unfold commit in Hc. destruct es as [|e es]; [inversion Hc; subst; exact IH|].
+    destruct (resolve cfg (cur s) (m2o s) (e :: es) 0 (Z.of_nat (length (cur s)))) as [t m l| |] eqn:Er; try discriminate.
+    2:{ destruct (cmp_eval _ _ _); discriminate. }
+    destruct (cmp_eval _ _ _); [discriminate|]. inversion Hc; subst s'; clear Hc. cbn [cur].
+    pose proof (resolve_len _ _ _ _ _ _ _ _ Hlen (Nat.le_0_l _) (is_boundary_0 _ Hwfc) Hok Er) as Hl.
+    assert (e :: es <> []) as Hne' by discriminate.
+    pose proof (resolve_final_len_bounded _ _ _ _ _ _ _ _ G3 Hne' Er) as Hb.
+    lia.
+Qed.
+
 End Cfg.
